@@ -228,8 +228,11 @@ class FakeNode(RpcNode):
             if p == ['mempool', 'pending_operations'] and method == 'GET':
                 ops = [{'hash': m['hash'], 'branch': m['branch'], 'contents': m['contents'], 'signature': m['signature']}
                        for m in self.mempool]
-                out = {self.mempool_key: ops, 'refused': [], 'outdated': [], 'branch_refused': [], 'branch_delayed': [],
-                       'unprocessed': []}
+                if self.mempool_key == 'split':      # a current node that has classified the oldest pending operation and only received the later ones
+                    out = {'validated': ops[:1], 'refused': [], 'outdated': [], 'branch_refused': [], 'branch_delayed': [], 'unprocessed': ops[1:]}
+                else:
+                    out = {self.mempool_key: ops, 'refused': [], 'outdated': [], 'branch_refused': [], 'branch_delayed': [],
+                           'unprocessed': []}
                 return _resp(200, out)
             if p[:1] == ['blocks'] and len(p) >= 2:
                 return self._block(method, p[1], p[2:], body, path)
@@ -321,6 +324,10 @@ class FakeNode(RpcNode):
                 if s.get('originated'):
                     res['originated_contracts'] = [b58check(P_KT1, hashlib.blake2b(b'kt%d' % k, digest_size=20).digest())]
             c['metadata'] = {'balance_updates': [], 'operation_result': res}
+            if spec != 'fail' and s.get('internal'):      # internal operations emitted by the content, each with its own result
+                c['metadata']['internal_operation_results'] = [
+                    {'kind': 'transaction', 'source': b58check(P_KT1, hashlib.blake2b(b'src%d' % k, digest_size=20).digest()), 'nonce': n, 'amount': '0',
+                     'destination': self.address, 'result': {'status': 'applied', 'consumed_milligas': str(mg)}} for n, mg in enumerate(s['internal'])]
             contents.append(c)
         return _resp(200, {'contents': contents, 'signature': body['operation'].get('signature')})
 
